@@ -201,7 +201,9 @@ func c10(c *Ctx) {
 			{Name: "log topic is LogMessagePublished", Pred: func(a string) bool {
 				return a == "*N/ethereum.LogMessagePublishedTopic == "+l+".Topics[0]" || a == l+".Topics[0] == *N/ethereum.LogMessagePublishedTopic"
 			}},
-			{Name: "log parsed without error", Pred: func(a string) bool { return strings.HasPrefix(a, "invoke:N/ethereum.Connector.ParseLogMessagePublished(ethConn,") && strings.HasSuffix(a, "#1 == nil") }},
+			{Name: "log parsed without error", Pred: func(a string) bool {
+				return strings.HasPrefix(a, "invoke:N/ethereum.Connector.ParseLogMessagePublished(ethConn,") && strings.HasSuffix(a, "#1 == nil")
+			}},
 		})
 	}
 	R.Floor("C10.reobs.alloc", na, 1)
